@@ -16,6 +16,9 @@ def apply(b, ops):
         if k == 'trunc':
             del b[max(0, min(n, op[1])):]
             continue
+        if k == 'tree':
+            b = bytearray(tree_op(bytes(b), op[1], op[2], op[3] if len(op) > 3 else None))
+            continue
         if n == 0:
             if k == 'ins':
                 b[0:0] = bytes.fromhex(op[2])
@@ -39,11 +42,237 @@ def apply(b, ops):
     return bytes(b)
 
 
-def gen_ops(r, b, nodes=None, max_ops=3):
+# ---------------------------------------------------------------------------
+# grammar-aware damage: edits of the TLV *tree* with every enclosing length recomputed, so that the
+# result is still framed and the damage reaches the payload decoders instead of the framing checks
+
+TREE_KINDS = ['empty', 'content', 'ident', 'dup', 'drop', 'swap', 'toindef', 'todef', 'fragment', 'zero-child',
+              'nest']
+
+
+class _T(object):
+    __slots__ = ('ident', 'indef', 'kids', 'content', 'lenpad')
+
+    def __init__(self):
+        self.lenpad = 0
+
+
+def _to_tree(b, n):
+    t = _T()
+    t.ident = bytes(b[n.start:n.tag_end])
+    t.indef = n.length == -1
+    if n.constructed:
+        t.kids = [_to_tree(b, c) for c in n.children]
+        t.content = None
+    else:
+        t.kids = None
+        t.content = bytes(b[n.hdr_end:n.end])
+    return t
+
+
+def _ser(t):
+    body = t.content if t.kids is None else b''.join(_ser(k) for k in t.kids)
+    if t.kids is not None and t.content:
+        body += t.content         # raw octets placed after the children of a constructed node
+    if t.indef and t.ident and t.ident[0] & 0x20:
+        return t.ident + b'\x80' + body + b'\x00\x00'
+    if t.lenpad:
+        n = len(body)
+        nb = n.to_bytes(max(1, (n.bit_length() + 7) // 8), 'big')
+        return t.ident + bytes([0x80 | (t.lenpad - 1 + len(nb))]) + b'\x00' * (t.lenpad - 1) + nb + body
+    return t.ident + bytes.fromhex(_enc_len(len(body))) + body
+
+
+def _flat(t, parent, out):
+    out.append((t, parent))
+    for k in (t.kids or ()):
+        _flat(k, t, out)
+
+
+def tree_op(b, kind, index, arg=None):
+    """Pure function; returns b unchanged when b is not a sequence of well-framed TLVs."""
+    from simkit import tlv
+    tops = []
+    pos = 0
+    try:
+        while pos < len(b):
+            n = tlv.scan(b, pos)
+            tops.append(_to_tree(b, n))
+            pos = n.end
+    except (tlv.ScanError, RecursionError):
+        return b
+    root = _T()
+    root.ident, root.indef, root.kids, root.content = b'', False, tops, None
+    flat = []
+    for t in tops:
+        _flat(t, root, flat)
+    if not flat:
+        return b
+    t, parent = flat[index % len(flat)]
+    sib = parent.kids
+    i = [k for k, x in enumerate(sib) if x is t][0]
+    if kind == 'empty':
+        if t.kids is None:
+            t.content = b''
+        else:
+            t.kids = []
+    elif kind == 'content':
+        raw = bytes.fromhex(arg or '')
+        if t.kids is None:
+            t.content = raw
+        else:
+            t.kids, t.content = [], raw
+    elif kind == 'ident':
+        t.ident = bytes.fromhex(arg or '04')
+        if t.kids is not None and not t.ident[0] & 0x20:
+            t.content = b''.join(_ser(k) for k in t.kids)
+            t.kids, t.indef = None, False
+        elif t.kids is None and t.ident[0] & 0x20:
+            t.kids, t.content = [], t.content
+    elif kind == 'dup':
+        sib.insert(i, t)
+    elif kind == 'drop':
+        del sib[i]
+    elif kind == 'swap':
+        if i + 1 < len(sib):
+            sib[i], sib[i + 1] = sib[i + 1], sib[i]
+    elif kind == 'toindef':
+        if t.kids is not None:
+            t.indef = True
+    elif kind == 'todef':
+        t.indef = False
+    elif kind == 'fragment':
+        # primitive -> constructed form of the same tag holding the content as primitive fragments;
+        # arg = "<fragment identifier hex or ->:<d|i>:<split>"  (definite/indefinite; where the content is cut)
+        if t.kids is None and t.ident:
+            a = (arg or '-:d:half').split(':')
+            if a[0] != '-':
+                frag_tag = bytes.fromhex(a[0])
+            else:
+                frag_tag = bytes([t.ident[0] & 0x1f]) if len(t.ident) == 1 and not t.ident[0] & 0xc0 else b'\x04'
+            c = t.content
+            cuts = {'half': [c[:len(c) // 2], c[len(c) // 2:]], 'empty-first': [b'', c], 'empty-last': [c, b''],
+                    'single': [c], 'three': [c[:1], c[1:2], c[2:]], 'none': []}[a[2] if len(a) > 2 else 'half']
+            kids = []
+            for part in cuts:
+                k = _T()
+                k.ident, k.indef, k.kids, k.content = frag_tag, False, None, part
+                kids.append(k)
+            t.ident = bytes([t.ident[0] | 0x20]) + t.ident[1:]
+            t.kids, t.content = kids, None
+            t.indef = len(a) > 1 and a[1] == 'i'
+    elif kind == 'zero-child':
+        if t.kids is not None:
+            k = _T()
+            k.ident, k.indef, k.kids, k.content = bytes.fromhex(arg or '04'), False, None, b''
+            t.kids.insert(len(t.kids) // 2, k)
+    elif kind == 'nest':
+        # wrap the node into a constructed node with identifier arg
+        w = _T()
+        w.ident, w.indef, w.kids, w.content = bytes.fromhex(arg or '30'), False, [t], None
+        sib[i] = w
+    return b''.join(_ser(x) for x in tops)
+
+
+# ---------------------------------------------------------------------------
+# BER *variants*: edits of the TLV tree that X.690 says do not change the abstract value (other length
+# forms, constructed strings, other octets for TRUE).  Used by C04 to obtain "any BER form" of a value
+# beyond those the library's own encoder produces; the caller admits a variant only if decoding it
+# gives the target abstract value, so an unsound edit costs reach, never soundness.
+
+STRING_TAGS = (4, 12, 18, 19, 20, 21, 22, 25, 26, 27, 28, 30, 23, 24)
+VARIANT_KINDS = ['longlen', 'longlen', 'toindef', 'fragment', 'fragment', 'booltrue']
+
+
+def variant_op(b, kind, index, arg=None):
+    from simkit import tlv
+    try:
+        n = tlv.scan(b)
+        if n.end != len(b):
+            return b
+    except (tlv.ScanError, RecursionError):
+        return b
+    top = _to_tree(b, n)
+    flat = []
+    _flat(top, None, flat)
+    t, _parent = flat[index % len(flat)]
+    universal = len(t.ident) == 1 and not t.ident[0] & 0xc0
+    num = t.ident[0] & 0x1f if universal else None
+    if kind == 'longlen':
+        if not t.indef:
+            t.lenpad = 1 + (arg or 0) % 3
+    elif kind == 'toindef':
+        if t.kids is not None:
+            t.indef = True
+    elif kind == 'booltrue':
+        if universal and num == 1 and t.kids is None and t.content not in (b'', b'\x00'):
+            t.content = bytes([(arg or 0x2a) & 0xff or 1])
+    elif kind == 'fragment':
+        if universal and t.kids is None and (num in STRING_TAGS or num == 3):
+            c = t.content
+            cut = (arg or 0) % (len(c) + 1)
+            if num == 3:
+                if not c:
+                    return b
+                cut = max(1, cut)
+                parts = [b'\x00' + c[1:cut], c[:1] + c[cut:]]
+            else:
+                parts = [c[:cut], c[cut:]]
+            kids = []
+            for part in parts:
+                k = _T()
+                k.ident, k.indef, k.kids, k.content = bytes([4 if num != 3 else 3]), False, None, part
+                kids.append(k)
+            t.ident = bytes([t.ident[0] | 0x20])
+            t.kids, t.content = kids, None
+            t.indef = bool((arg or 0) & 0x100)
+    return _ser(top)
+
+
+def gen_variant_ops(r, n_nodes_hint=8):
+    ops = []
+    for _ in range(r.choice([1, 1, 2, 3, 5])):
+        ops.append([r.choice(VARIANT_KINDS), r.randrange(max(1, n_nodes_hint) * 4), r.randrange(0x200)])
+    return ops
+
+
+def apply_variant(b, ops):
+    for kind, index, arg in ops:
+        b = variant_op(b, kind, index, arg)
+    return b
+
+
+def gen_tree_op(r, nodes):
+    kind = r.choice(TREE_KINDS)
+    idx = r.randrange(max(1, len(nodes or [1])))
+    arg = None
+    if kind == 'content':
+        arg = bytes(r.choice(CONTENT) for _ in range(r.choice([0, 1, 1, 2, 3]))).hex()
+    elif kind == 'ident':
+        arg = '%02x' % r.choice(STRUCT + [0x3f, 0xbf, 0x9f, 0x23, 0x2c, 0x0c, 0x09, 0x06, 0x03, 0x01, 0x0a, 0x17, 0x18, 0x1e, 0x1c])
+        if int(arg, 16) & 0x1f == 0x1f:
+            arg += '%02x' % r.choice([0x01, 0x1f, 0x7f])
+    elif kind == 'zero-child':
+        arg = '%02x' % r.choice([0x03, 0x04, 0x04, 0x0c, 0x02, 0x05, 0x24, 0x23, 0x30])
+    elif kind == 'nest':
+        arg = '%02x' % r.choice([0x30, 0x31, 0xa0, 0xa1, 0x24, 0x23, 0x2c])
+    elif kind == 'fragment':
+        arg = '%s:%s:%s' % (r.choice(['-', '-', '-', '04', '03', '24']), r.choice('di'),
+                            r.choice(['half', 'half', 'empty-first', 'empty-last', 'single', 'three', 'none']))
+    return ['tree', kind, idx, arg]
+
+
+def gen_ops(r, b, nodes=None, max_ops=3, p_tree=0.3):
     """Seeded corruption plan for encoding b.  nodes: list of framing nodes
     (start, tag_end, hdr_end, end) to aim structural faults at."""
     ops = []
     n = max(1, len(b))
+    if nodes and r.random() < p_tree:
+        # grammar-aware damage first (it needs framed input), optionally followed by byte damage
+        for _ in range(r.choice([1, 1, 2])):
+            ops.append(gen_tree_op(r, nodes))
+        if r.random() < 0.6:
+            return ops
     for _ in range(r.choice([1, 1, 1, 2, 3][:max(1, max_ops + 2)])):
         x = r.random()
         node = r.choice(nodes) if nodes else None
